@@ -169,9 +169,16 @@ def outNamed (phased : Bool) (n : Nat) (o : Got) (j : Nat) : Int × Int × Strin
 def recVar (phased : Bool) (r : Rec) : Int × Int × List Int := (r.chrom, r.pos, colRec phased r)
 def recNamedOf (phased : Bool) (r : Rec) : Int × Int × String × List Int := (r.chrom, r.pos, r.id, colRec phased r)
 
+/-- the output is in (chromosome, position) order — what `group_vrnt` produces; NOT part of the Spec (the
+    property speaks of reproducing names, coordinates, identifiers and calls, not of an order): reported by the
+    driver and covered by model = code -/
+def sortedOut (p : Nat) (o : Got) : Bool :=
+  (List.range (p - 1)).all (fun jx =>
+    !(keyLt (o.chrgrp.getD (jx + 1) 0, o.phypos.getD (jx + 1) 0) (o.chrgrp.getD jx 0, o.phypos.getD jx 0)))
+
 /-- **the Spec**: sample names; the variants — each with its chromosome, position, identifier (when the
     record has one: `hasId`) and column of calls — are the file's records, in file order (no grouping)
-    or as a permutation in (chromosome, position) order (grouping) -/
+    or as a permutation of them (grouping): labels and calls travel together -/
 def specVcf (samples : List String) (recs : List Rec) (hasId : List Bool) (g phased : Bool) (o : Got) : Bool :=
   let n := samples.length
   let p := recs.length
@@ -183,10 +190,8 @@ def specVcf (samples : List String) (recs : List Rec) (hasId : List Bool) (g pha
   let namesAnyOrder := recNm.all (fun v => recNm.count v ≤ outNm.count v)
   let sameOrder := outVars == recVars
   let isPerm := outVars.length == recVars.length && outVars.all (fun v => outVars.count v == recVars.count v)
-  let sorted := (List.range (p - 1)).all (fun jx =>
-    !(keyLt (o.chrgrp.getD (jx + 1) 0, o.phypos.getD (jx + 1) 0) (o.chrgrp.getD jx 0, o.phypos.getD jx 0)))
   o.taxa == samples && shapeOk phased n p o &&
-    (if g then isPerm && sorted && namesAnyOrder else sameOrder && namesFileOrder)
+    (if g then isPerm && namesAnyOrder else sameOrder && namesFileOrder)
 
 /-- the model's own output in the shape the Spec reads -/
 def gotOf (o : Out) : Got := ⟨o.taxa, o.chrgrp, o.phypos, o.name, o.matP, o.matU⟩
